@@ -56,14 +56,32 @@ class ModelTerms:
         C, f = find_method(self.ci, "_update_weights")
         if f is None:
             return grads
-        params = [a.arg for a in f.args.args]
-        env = {params[0]: None, params[1]: weights, params[2]: list(grads)}
-        I = TermInterp(env, self.attrs, mode="model", attr_default=self.attr_default)
-        I.on_update = lambda w, g: seen.append(list(g))
-        I.run(f)
+
+        def run(C_, f_, w_, g_):
+            params = [a.arg for a in f_.args.args]
+            env = {params[0]: None, params[1]: w_, params[2]: list(g_)}
+
+            def sup(m, a):
+                # super()._update_weights(weights, gradients): the inherited step, with the same observation of update_params
+                mro = self.ci.mro
+                for B in mro[mro.index(C_) + 1:]:
+                    if m in B.methods:
+                        if m != "_update_weights" or len(a) != 2:
+                            raise Unsupported(f"super().{m} inside _update_weights")
+                        return run(B, B.methods[m], a[0], a[1])
+                raise Unsupported(f"super().{m} not found")
+            I = TermInterp(env, self.attrs, mode="model", attr_default=self.attr_default, super_call=sup)
+            I.on_update = lambda w, g: seen.append(list(g))
+            return I.run(f_)
+        run(C, f, weights, grads)
         if len(seen) != 1:
             raise Unsupported("_update_weights does not hand the gradients to optimiser_.update_params exactly once")
         return seen[0]
+
+    def resolve_func(self, name):
+        """the unique module-level function of the package with this name (a helper shared between modules), else None"""
+        hits = [st for u in self.pm.units.values() for st in u.tree.body if isinstance(st, ast.FunctionDef) and st.name == name]
+        return hits[0] if len(hits) == 1 else None
 
     def run_method(self, name, args, start_after=None):
         mro = self.ci.mro
@@ -83,6 +101,7 @@ class ModelTerms:
                         env[p_] = ast.literal_eval(dflt) if dflt is not None else None
                 I = TermInterp(env, self.attrs, mode="model", attr_default=self.attr_default,
                                super_call=lambda m, a, C=C: self.run_method(m, a, start_after=C))
+                I.func_resolver = self.resolve_func
                 return I.run(f)
         raise Unsupported(f"method {name} not found")
 
